@@ -339,7 +339,7 @@ class Result:
         v = float(v)
         if not math.isfinite(v):
             v = 1e300
-        if v > self.max_dev.get(key, 0.0):
+        if key not in self.max_dev or v > self.max_dev[key]:
             self.max_dev[key] = v
 
     def oracle_fail(self, what, case, detail=None, signature=None):
